@@ -45,8 +45,9 @@ Section Ez.
         else
           match src_value s with
           | Ok v =>
-              let '(st', r) := d_update fs defaults verify prm st 0 v in
               let b' := {| b_inner := Some s; b_has_wa := b_has_wa b |} in
+              if negb (d_alive st) then (b', st, Err 23) else   (* nobody receives the report: context expires *)
+              let '(st', r) := d_update fs defaults verify prm st 0 v in
               match r with
               | Ok _ => match s with
                         | SrcWatcher _ false => (b', st', Err 22)
@@ -61,8 +62,9 @@ Section Ez.
     | None =>
         match src_value s with
         | Ok v =>
-            let '(st', r) := d_update fs defaults verify prm st 0 v in
             let b' := {| b_inner := Some s; b_has_wa := b_has_wa b |} in
+            if negb (d_alive st) then (b', st, Err 23) else
+            let '(st', r) := d_update fs defaults verify prm st 0 v in
             match r with
             | Ok _ => match s with
                       | SrcWatcher _ false => (b', st', Err 22)
@@ -81,6 +83,26 @@ Section Ez.
     match b_inner b with
     | Some s => if is_watcher s then st else if b_has_wa b then d_done st 0 else st
     | None => if b_has_wa b then d_done st 0 else st
+    end.
+
+  (* histories of operations on a Blank in slot 0 *)
+  Inductive blank_op :=
+  | OpSet (s : inner_src)
+  | OpDone
+  | OpReport (v : val).   (* the inner WATCHING source reports a new value through the WatchArgs it was handed *)
+
+  Definition blank_step (prm : dparams) (bs : blank * dstate) (o : blank_op) : blank * dstate * outcome unit :=
+    match o with
+    | OpSet s => blank_set_source prm (fst bs) (snd bs) s
+    | OpDone => (fst bs, blank_done (fst bs) (snd bs), Ok tt)
+    | OpReport v =>
+        match b_inner (fst bs) with
+        | Some (SrcWatcher _ true) =>
+            if d_alive (snd bs) then
+              let '(st', r) := d_update fs defaults verify prm (snd bs) 0 v in (fst bs, st', r)
+            else (fst bs, snd bs, Err 23)
+        | _ => (fst bs, snd bs, Err 24)   (* no watching inner source holds the WatchArgs *)
+        end
     end.
 
   (* ---- the ez entry point ---- *)
